@@ -14,12 +14,16 @@ package inverted
 //@ func toByteSortable[int64]
 //@   property C19 C02
 //@   arith bv
+//@   pure
+//@   allocates
 //@   ensures err == nil && len(result0) == 8
 //@   ensures decI64(be64at(result0, 0)) == v
 
 //@ func toByteSortable[float64]
 //@   property C19 C02
 //@   arith bv
+//@   pure
+//@   allocates
 //@   ensures err == nil && len(result0) == 8
 //@   ensures !isNaN(v) ==> decF64(be64at(result0, 0)) == v
 //@   ensures !isNaN(v) ==> validF64Key(be64at(result0, 0))
@@ -27,6 +31,8 @@ package inverted
 //@ func toByteSortable[string]
 //@   property C19 C02
 //@   arith bv
+//@   pure
+//@   allocates
 //@   ensures err == nil && string(result0) == v
 //@   ensures result0 != nil
 
@@ -86,12 +92,16 @@ package inverted
 //@   ensures !old(inv.params.CaseSensitive) ==> callarg(Search, 1, 1) == lower(options.Value) && callarg(Search, 1, 2) == lower(options.EndValue)
 
 // flush (properties C02, C07, C08): a bucket write or delete that fails is never swallowed - the
-// flush stops and reports an error, so the enclosing write batch is rolled back as a whole.
+// flush stops and reports an error, so the enclosing write batch is rolled back as a whole. Only
+// dirty postings are written: an empty one is deleted under, a non-empty one stored (serialised)
+// under, the sortable key of its own term.
 //@ func (*IndexInverted).flush
 //@   property C02 C07 C08
 //@   arith bv
 //@   safety -overflow -nil
 //@   ensures result == nil ==> lastres(Put) == nil && lastres(Delete) == nil
+//@   before Put requires item.isDirty && !callres(IsEmpty, 1, 0) && arg1 == callres(toByteSortable, 1, 0) && (callarg(toByteSortable, 1, 0) == term || term != term) && arg2 == callres(ToBytes, 1, 0) && callarg(ToBytes, 1, 0) == item.set && callarg(IsEmpty, 1, 0) == item.set
+//@   before Delete requires item.isDirty && callres(IsEmpty, 1, 0) && arg1 == callres(toByteSortable, 1, 0) && (callarg(toByteSortable, 1, 0) == term || term != term) && callarg(IsEmpty, 1, 0) == item.set
 //@   loop 1 invariant lastres(Put) == nil && lastres(Delete) == nil
 
 // ---- array index: previous-versus-current diff (property C02) ----
